@@ -40,9 +40,14 @@ def RxSO3Add (eps : α) (X : RxSO3 α) (o : List α) : Option (RxSO3 α) :=
 def Sim3Add (eps : α) (X : Sim3 α) (o : List α) : Option (Sim3 α) :=
   if o.length < 7 then none else some (Sim3Retr eps X (sim3.ofList (o.take 7)))
 
-/-- `LieType.add_` for algebra types (`on_manifold`): `x + other[..., :m]`, `m = len x` -/
+/-- `LieType.add_` for algebra types (`on_manifold`): `x + other[..., :m]`, `m = len x` — a plain torch addition of the last axis, so
+`other` of width ≥ m is cut to `m`, width exactly 1 BROADCASTS against the `m` components (`so3([1,2,3]) + [10.] = [11,12,13]`), and
+widths 0 and 2..m−1 raise.  (The property speaks about operands of at least the manifold dimension; the width-1 case is modelled
+because the code accepts it.) -/
 def algAdd (x o : List α) : Option (List α) :=
-  if o.length < x.length then none else some (DVec.add x (o.take x.length))
+  if x.length ≤ o.length then some (DVec.add x (o.take x.length))
+  else if o.length = 1 then some (x.map (fun v => v + o.getD 0 (k 0)))
+  else none
 
 /-- `SO3Type.Jr` : `X.Log().Jr()` -/
 def SO3Jr (eps : α) (X : Quat α) : Mat3 α := so3Jr eps (SO3Log eps X)
@@ -81,7 +86,8 @@ open Batch in
 def lieAdd {G : Type} (m d : Nat) (retr : List α → G → G) (sp : AddSpelling) (alpha : α)
     (x : T G) (o : T (List α)) (w : Nat) : Except AddError (Out G) :=
   if w < m then .error .short                       -- `LieTensor(other[..., :m], ltype=alg).Exp()` on too few components
-  else if sp.isRetr && w ≠ m then .error .wide       -- `Retr` takes an algebra LieTensor: exactly `m` components
+  else if sp.isRetr && w ≠ m then .error .wide       -- OUTCOME CLASS only: an algebra LieTensor wider than `m` makes the code raise later
+                                                     -- (RuntimeError / AttributeError inside Exp / Mul); there is no dedicated width check in the code
   else
     let a : T (List α) := ⟨o.shape, fun k => if sp.isRetr then o.data k else scaleList alpha (o.data k)⟩
     if sp.isRetr then
